@@ -559,23 +559,23 @@ theorem dedup_spec {κ : Type} [DecidableEq κ] (key : Row → κ) (rows : List 
 
 /-- a resolved reference points at a field that matches it -/
 theorem field_index_sound (h : List HField) (view : Option String) (name : String) (k : Nat)
-    (hk : fieldIndex h view name = .ok k) : ∃ f, h[k]? = some f ∧ fieldMatches view name f = true := by
-  rcases fieldIndexGo_sound view name h 0 none k hk with h1 | ⟨j, f, hf, hkj, hm⟩
+    (hk : fieldIndex h view name = .ok k) : ∃ f, h[k]? = some f ∧ fieldMatches view (trimSpace name) f = true := by
+  rcases fieldIndexGo_sound view (trimSpace name) h 0 none k hk with h1 | ⟨j, f, hf, hkj, hm⟩
   · cases h1
   · exact ⟨f, by rw [hkj, Nat.zero_add]; exact hf, hm⟩
 
 /-- two candidates, no join column in the header (or a qualified reference): the reference is rejected -/
 theorem field_index_ambiguous (h : List HField) (view : Option String) (name : String)
     (hnj : view.isSome = true ∨ ∀ f, f ∈ h → f.isJoin = false)
-    (h2 : 2 ≤ h.countP (fieldMatches view name)) : fieldIndex h view name = .error .ambiguous :=
-  fieldIndexGo_ambiguous view name h 0 none hnj (by simpa using h2)
+    (h2 : 2 ≤ h.countP (fieldMatches view (trimSpace name))) : fieldIndex h view name = .error .ambiguous :=
+  fieldIndexGo_ambiguous view (trimSpace name) h 0 none hnj (by simpa using h2)
 
 /-- inside the join's own query the merged column wins (nothing before it carries the name) -/
 theorem join_column_wins (name : String) (pre : List HField) (f : HField) (post : List HField)
-    (hpre : ∀ g, g ∈ pre → fieldMatches none name g = false) (hf : eqFold f.name name = true)
+    (hpre : ∀ g, g ∈ pre → fieldMatches none (trimSpace name) g = false) (hf : colEq f (trimSpace name) = true)
     (hj : f.isJoin = true) : fieldIndex (pre ++ f :: post) none name = .ok pre.length := by
   unfold fieldIndex
-  rw [fieldIndexGo_join_wins name pre f post 0 none hpre hf hj, Nat.zero_add]
+  rw [fieldIndexGo_join_wins (trimSpace name) pre f post 0 none hpre hf hj, Nat.zero_add]
 
 /-- after `Fix` no field is a join column -/
 theorem fix_clears_join_columns (labels : List String) (h : List HField) :
@@ -589,8 +589,8 @@ theorem fix_clears_join_columns (labels : List String) (h : List HField) :
     makes the unqualified name ambiguous -/
 theorem derived_table_column_ambiguous (alias : String) (labels : List String) (h other : List HField) (name : String)
     (hother : ∀ f, f ∈ other → f.isJoin = false)
-    (h1 : 1 ≤ (aliasHeader alias (fixHeader labels h)).countP (fieldMatches none name))
-    (h2 : 1 ≤ other.countP (fieldMatches none name)) :
+    (h1 : 1 ≤ (aliasHeader alias (fixHeader labels h)).countP (fieldMatches none (trimSpace name)))
+    (h2 : 1 ≤ other.countP (fieldMatches none (trimSpace name))) :
     fieldIndex (other ++ aliasHeader alias (fixHeader labels h)) none name = .error .ambiguous ∧
     fieldIndex (aliasHeader alias (fixHeader labels h) ++ other) none name = .error .ambiguous := by
   have hd := fix_clears_join_columns (alias := alias) labels h
@@ -656,12 +656,13 @@ example : recursiveUnionImpl (fun r => r.map (fun p => p.int?))
       (fun g => (g.filter (fun r => r != [cI 3])).map (fun r => if r == [cI 1] then [cI 2] else [cI 3])) 9 [[cI 1], [cI 1]]
     = some [[cI 1], [cI 2], [cI 3]] := by decide
 example (n x : String) : fieldIndex [⟨"c", n, false, []⟩, ⟨"s", n, false, []⟩, ⟨"s", x, false, []⟩] none n = .error .ambiguous := by
-  simp [fieldIndex, fieldIndexGo, fieldMatches, joinWins, eqFold]
+  simp [fieldIndex, fieldIndexGo, fieldMatches, joinWins, colEq, eqFold]
 example (n : String) : fieldIndex [⟨"", n, true, []⟩, ⟨"c", n, false, []⟩] none n = .ok 0 := by
-  simp [fieldIndex, fieldIndexGo, fieldMatches, joinWins, eqFold]
+  simp [fieldIndex, fieldIndexGo, fieldMatches, joinWins, colEq, eqFold]
 -- `SELECT v AS k, k AS …`: the alias given to v makes the following unqualified k ambiguous
-example (k v : String) : fieldIndex [⟨"t", k, false, []⟩, ⟨"t", v, false, [k]⟩] none k = .error .ambiguous := by
-  simp [fieldIndex, fieldIndexGo, fieldMatches, joinWins, eqFold]
+example (k v : String) (hk : trimSpace k = k) :
+    fieldIndex [⟨"t", k, false, []⟩, ⟨"t", v, false, [k]⟩] none k = .error .ambiguous := by
+  simp [fieldIndex, fieldIndexGo, fieldMatches, joinWins, colEq, eqFold, hk]
 example (t : String) : tableKind none [t] [t] t = .cte := by simp [tableKind, nameIn, eqFold]
 example : outerImpl .left 1 2 [[[cI 1]], [[cI 2]]] [] (fun _ => .T) = [[cI 1, nullP, nullP], [cI 2, nullP, nullP]] := by decide
 
